@@ -643,6 +643,74 @@ def rule_tf_curves(ctx):
     ctx.floor(rid + ".rows", 6 * 15)
 
 
+def rule_adapt_mat(ctx):
+    """the chromatic adaptation matrix, evaluated from MIR, is the Bradford transform - also between nearly equal white points"""
+    from .. import absint
+    rid = "R-ADAPT-MAT"
+    ctx.rule(rid, "ciexyz::adapt_mat(from, to) is the linear Bradford adaptation M^-1 diag(M to / M from) M (ICC.1 Annex E).  The `chad` "
+                  "tag of a synthesised profile is this matrix from the image's white point to D50, and it is the only place the white "
+                  "point of an RGB encoding is carried; the parser recovers the white point from it.  The function is evaluated from "
+                  "MIR (illuminant_to_xyz supplied as (x/y, 1, (1-x-y)/y)) for five pairs of white points - D65 to D50, E to D50, D50 to "
+                  "D65, a custom white 5e-4 away from D50, and equal whites - and compared with the formula within 2e-5.  A shortcut "
+                  "that returns the identity for `close enough` white points erases custom white points near D50")
+    cr = ctx.prog.crate("jxl_color")
+    f = cr.fns.get("jxl_color::ciexyz::adapt_mat")
+    if f is None or f.argc != 2:
+        ctx.anchor_missing(rid, "jxl_color::ciexyz::adapt_mat(from, to)")
+        return
+    ctx.seen(f)
+    M = [0.8951, 0.2664, -0.1614, -0.7502, 1.7135, 0.0367, 0.0389, -0.0685, 1.0296]
+
+    def inv3(m):
+        a, b, c, d, e, f_, g, h, i = m
+        det = a * (e * i - f_ * h) - b * (d * i - f_ * g) + c * (d * h - e * g)
+        return [(e * i - f_ * h) / det, (c * h - b * i) / det, (b * f_ - c * e) / det,
+                (f_ * g - d * i) / det, (a * i - c * g) / det, (c * d - a * f_) / det,
+                (d * h - e * g) / det, (b * g - a * h) / det, (a * e - b * d) / det]
+
+    def mv(m, v):
+        return [sum(m[r * 3 + k] * v[k] for k in range(3)) for r in range(3)]
+
+    def mm(a, b):
+        return [sum(a[r * 3 + k] * b[k * 3 + c] for k in range(3)) for r in range(3) for c in range(3)]
+
+    def xyz(xy):
+        x, y = xy
+        return (x / y, 1.0, (1.0 - x - y) / y)
+
+    def ref(a, b):
+        fa, fb = mv(M, xyz(a)), mv(M, xyz(b))
+        dg = [fb[0] / fa[0], 0, 0, 0, fb[1] / fa[1], 0, 0, 0, fb[2] / fa[2]]
+        return mm(inv3(M), mm(dg, M))
+
+    D50, D65, E = (0.345669, 0.358496), (0.3127, 0.3290), (1 / 3, 1 / 3)
+    pairs = [(D65, D50, "D65 -> D50"), (E, D50, "E -> D50"), (D50, D65, "D50 -> D65"), ((0.3462, 0.3590), D50, "(0.3462, 0.3590) -> D50"),
+             (D65, D65, "D65 -> D65")]
+    rows, bad, undec = 0, None, None
+    for a, b, nm in pairs:
+        ev = absint.Evaluator(ctx.prog, max_steps=200000)
+        ev.intercept = {"ciexyz::illuminant_to_xyz": lambda args, ev=ev: tuple(xyz(ev.deref_val(args[0]))),
+                        "AsIlluminant::as_illuminant": lambda args, ev=ev: tuple(ev.deref_val(args[0]))}
+        try:
+            r = ev.call_fn(f, [a, b])
+        except absint.Unsupported as e:
+            undec = "%s: %s" % (nm, e)
+            break
+        rows += 1
+        want = ref(a, b)
+        if not isinstance(r, tuple) or len(r) != 9 or any(not isinstance(x, (int, float)) or abs(float(x) - w) > 2e-5 for x, w in zip(r, want)):
+            bad = (nm, [round(float(x), 6) if isinstance(x, (int, float)) else x for x in (r if isinstance(r, tuple) else ())], [round(w, 6) for w in want])
+            break
+    ctx.count(rid + ".rows", rows)
+    if undec:
+        ctx.bad(rid, "adapt_mat|not-evaluable", "ciexyz::adapt_mat is no longer a function the evaluator can decide (%s)" % undec, fn=f)
+    elif bad:
+        ctx.bad(rid, "adapt_mat|bradford", "adapt_mat for %s is %s, the Bradford transform is %s" % bad, fn=f)
+    else:
+        ctx.floor(rid + ".rows", 5)
+        ctx.ok(rid, "adapt_mat|bradford", "5 white-point pairs equal the Bradford transform within 2e-5", nontrivial=True, fn=f)
+
+
 def main(pid, tier, repo=None):
     ctx = Ctx(pid, tier, configs=("workspace",), repo=repo)
     specconst.run(ctx, pid, floor=20)
@@ -654,6 +722,7 @@ def main(pid, tier, repo=None):
     rule_trc_present(ctx)
     rule_cicp_hdr(ctx)
     rule_tf_curves(ctx)
+    rule_adapt_mat(ctx)
     ctx.not_decided("numerical tolerance statements over real-valued functions: that the synthesised profile parses back to an equivalent "
                     "encoding for custom chromaticities and arbitrary gamma, that each transfer function's two directions compose to the "
                     "identity and are monotone, no-op detection of equivalent encodings")
